@@ -31,6 +31,7 @@ COMMON_ASSUMPTIONS = [
 
 PROP_META = {}
 _ENTRIES = []
+_BYNAME = {}
 
 
 def bk(b, elem, cap):
@@ -73,6 +74,14 @@ def unwind_for(elem, L, bytepath=True, floor=12):
 def H(name, call, props, tier="quick", unwind=12, expect=(), must_panic=False, dims=None, stubs=(), role=None, noalloc=False):
     e = dict(name=name, call=call, props=list(props), tier=tier, unwind=unwind, expect=list(expect), must_panic=must_panic,
              dims=dims or {}, stubs=list(stubs), role=role or name, noalloc=noalloc)
+    old = _BYNAME.get(name)
+    if old is not None:
+        # same instance requested twice (e.g. quick core and thorough cross product): keep the earlier tier
+        for p in e["props"]:
+            if p not in old["props"]:
+                old["props"].append(p)
+        return old
+    _BYNAME[name] = e
     _ENTRIES.append(e)
     return e
 
